@@ -1,6 +1,6 @@
 //! C17, second half: aranges, pubnames/pubtypes, indexed tables, packages, plumbing.
 
-use super::{endian, guarded, Rd};
+use super::{ceq, cfail, endian, guarded, Rd};
 use crate::asm::{Asm, Enc};
 use crate::gen::index::*;
 use crate::model::index::*;
@@ -35,12 +35,12 @@ fn check_aranges(ctx: &mut Ctx, tag: &str, sets: &[ArangeSetM], le: bool, bytes:
                 Ok(Some(h)) => h,
                 Ok(None) => break,
                 Err(e) => {
-                    ctx.fail(&format!("{tag}.headers.err"), &format!("header iteration failed: {e:?}"), &input);
+                    cfail(ctx, &format!("{tag}.headers.err"), &format!("header iteration failed: {e:?}"), &input);
                     return;
                 }
             };
             let Some(s) = sets.get(k) else {
-                ctx.fail(&format!("{tag}.headers.extra"), "more sets than encoded", &input);
+                cfail(ctx, &format!("{tag}.headers.extra"), "more sets than encoded", &input);
                 return;
             };
             k += 1;
@@ -52,17 +52,17 @@ fn check_aranges(ctx: &mut Ctx, tag: &str, sets: &[ArangeSetM], le: bool, bytes:
             if s.padding() > 0 {
                 ctx.obs("aranges.pad.nonzero");
             }
-            ctx.check_eq(&format!("{tag}.header.offset"), &(s.offset as usize), &h.offset().0, &input);
-            ctx.check_eq(&format!("{tag}.header.length"), &(s.length as usize), &h.length(), &input);
-            ctx.check_eq(&format!("{tag}.header.debug_info_offset"), &(s.info_offset as usize), &h.debug_info_offset().0, &input);
+            ceq(ctx, &format!("{tag}.header.offset"), &(s.offset as usize), &h.offset().0, &input);
+            ceq(ctx, &format!("{tag}.header.length"), &(s.length as usize), &h.length(), &input);
+            ceq(ctx, &format!("{tag}.header.debug_info_offset"), &(s.info_offset as usize), &h.debug_info_offset().0, &input);
             let e = h.encoding();
-            ctx.check_eq(&format!("{tag}.header.encoding"), &(s.fmt64, s.version, s.addr_size), &(e.format == gimli::Format::Dwarf64, e.version, e.address_size), &input);
+            ceq(ctx, &format!("{tag}.header.encoding"), &(s.fmt64, s.version, s.addr_size), &(e.format == gimli::Format::Dwarf64, e.version, e.address_size), &input);
             // header(offset) random access gives the same set
             match da.header(gimli::DebugArangesOffset(s.offset as usize)) {
                 Ok(h2) => {
-                    ctx.check_eq(&format!("{tag}.header_at.length"), &(s.length as usize), &h2.length(), &input);
+                    ceq(ctx, &format!("{tag}.header_at.length"), &(s.length as usize), &h2.length(), &input);
                 }
-                Err(e) => ctx.fail(&format!("{tag}.header_at.err"), &format!("header({}) failed: {e:?}", s.offset), &input),
+                Err(e) => cfail(ctx, &format!("{tag}.header_at.err"), &format!("header({}) failed: {e:?}", s.offset), &input),
             }
             // cooked entries up to the first error
             let want = s.expected();
@@ -77,7 +77,7 @@ fn check_aranges(ctx: &mut Ctx, tag: &str, sets: &[ArangeSetM], le: bool, bytes:
                         break;
                     }
                     Err(e) => {
-                        ctx.fail(&format!("{tag}.entries.err"), &format!("entry iteration failed: {e:?}"), &input);
+                        cfail(ctx, &format!("{tag}.entries.err"), &format!("entry iteration failed: {e:?}"), &input);
                         break;
                     }
                 }
@@ -97,7 +97,7 @@ fn check_aranges(ctx: &mut Ctx, tag: &str, sets: &[ArangeSetM], le: bool, bytes:
             if s.tuples.iter().any(|t| t.0 >= addr_mask(s.addr_size) - 1) {
                 ctx.obs("aranges.tombstone");
             }
-            ctx.check_eq(&format!("{tag}.entries"), &want, &got, &input);
+            ceq(ctx, &format!("{tag}.entries"), &want, &got, &input);
             // range begin must equal the address
             // raw entries: every tuple except (0,0), no filtering
             let want_raw = s.expected_raw();
@@ -108,14 +108,14 @@ fn check_aranges(ctx: &mut Ctx, tag: &str, sets: &[ArangeSetM], le: bool, bytes:
                     Ok(Some(a)) => got_raw.push((a.address(), a.length())),
                     Ok(None) => break,
                     Err(e) => {
-                        ctx.fail(&format!("{tag}.next_raw.err"), &format!("raw iteration failed: {e:?}"), &input);
+                        cfail(ctx, &format!("{tag}.next_raw.err"), &format!("raw iteration failed: {e:?}"), &input);
                         break;
                     }
                 }
             }
-            ctx.check_eq(&format!("{tag}.next_raw"), &want_raw, &got_raw, &input);
+            ceq(ctx, &format!("{tag}.next_raw"), &want_raw, &got_raw, &input);
         }
-        ctx.check_eq(&format!("{tag}.headers.count"), &sets.len(), &k, &input);
+        ceq(ctx, &format!("{tag}.headers.count"), &sets.len(), &k, &input);
     });
 }
 
@@ -239,8 +239,8 @@ pub fn pub_stream(ctx: &mut Ctx) {
                     }
                 }
                 // the section type reports its own id and bytes
-                ctx.check_eq("pubtypes.id", &SectionId::DebugPubTypes, &gimli::DebugPubTypes::<Rd>::id(), &input);
-                ctx.check_eq("pubtypes.reader", &bytes, &p.reader().slice().to_vec(), &input);
+                ceq(ctx, "pubtypes.id", &SectionId::DebugPubTypes, &gimli::DebugPubTypes::<Rd>::id(), &input);
+                ceq(ctx, "pubtypes.reader", &bytes, &p.reader().slice().to_vec(), &input);
             } else {
                 let p = gimli::DebugPubNames::new(&bytes, endian(le));
                 let mut it = p.items();
@@ -254,12 +254,12 @@ pub fn pub_stream(ctx: &mut Ctx) {
                         }
                     }
                 }
-                ctx.check_eq("pubnames.id", &SectionId::DebugPubNames, &gimli::DebugPubNames::<Rd>::id(), &input);
-                ctx.check_eq("pubnames.reader", &bytes, &p.reader().slice().to_vec(), &input);
+                ceq(ctx, "pubnames.id", &SectionId::DebugPubNames, &gimli::DebugPubNames::<Rd>::id(), &input);
+                ceq(ctx, "pubnames.reader", &bytes, &p.reader().slice().to_vec(), &input);
             }
             let tag = if types { "pubtypes" } else { "pubnames" };
             if let Some(e) = err {
-                ctx.fail(&format!("{tag}.items.err"), &format!("item iteration failed: {e}"), &input);
+                cfail(ctx, &format!("{tag}.items.err"), &format!("item iteration failed: {e}"), &input);
                 return;
             }
             ctx.obs_n(if types { "pub.types.entry" } else { "pub.names.entry" }, want.len() as u64);
@@ -269,7 +269,7 @@ pub fn pub_stream(ctx: &mut Ctx) {
             if sets.iter().any(|s| s.fmt64) {
                 ctx.obs("pub.fmt64");
             }
-            ctx.check_eq(&format!("{tag}.items"), &want, &got, &input);
+            ceq(ctx, &format!("{tag}.items"), &want, &got, &input);
         });
         if !want.is_empty() {
             ctx.nontrivial_bytes(if types { "pubtypes" } else { "pubnames" }, &bytes);
@@ -320,7 +320,7 @@ pub fn tables_stream(ctx: &mut Ctx) {
                     ctx.obs("stroff.get");
                     let got = dso.get_str_offset(fmt, gimli::DebugStrOffsetsBase(t.base as usize), gimli::DebugStrOffsetsIndex(k)).ok().map(|o| o.0 as u64);
                     if got != Some(*e) {
-                        ctx.check_eq("get_str_offset", &Some(*e), &got, &|| json!({"base": t.base, "index": k, "tables": input()}));
+                        ceq(ctx, "get_str_offset", &Some(*e), &got, &|| json!({"base": t.base, "index": k, "tables": input()}));
                     }
                 }
                 // first index whose entry would lie (partly) outside the section must fail
@@ -331,7 +331,7 @@ pub fn tables_stream(ctx: &mut Ctx) {
                     ctx.obs("stroff.oob");
                     let got = dso.get_str_offset(fmt, gimli::DebugStrOffsetsBase(t.base as usize), gimli::DebugStrOffsetsIndex(idx));
                     if got.is_ok() {
-                        ctx.fail("get_str_offset.out_of_bounds", &format!("index {idx} at base {} of a {}-byte section returned {got:?}", t.base, so_b.len()), &input);
+                        cfail(ctx, "get_str_offset.out_of_bounds", &format!("index {idx} at base {} of a {}-byte section returned {got:?}", t.base, so_b.len()), &input);
                     }
                 }
             }
@@ -341,7 +341,7 @@ pub fn tables_stream(ctx: &mut Ctx) {
                     ctx.obs("addr.get");
                     let got = da.get_address(t.entry_size, gimli::DebugAddrBase(t.base as usize), gimli::DebugAddrIndex(k)).ok();
                     if got != Some(*e) {
-                        ctx.check_eq("get_address", &Some(*e), &got, &|| json!({"base": t.base, "index": k, "tables": input()}));
+                        ceq(ctx, "get_address", &Some(*e), &got, &|| json!({"base": t.base, "index": k, "tables": input()}));
                     }
                 }
                 let sz = t.entry_size as usize;
@@ -351,7 +351,7 @@ pub fn tables_stream(ctx: &mut Ctx) {
                     ctx.obs("addr.oob");
                     let got = da.get_address(t.entry_size, gimli::DebugAddrBase(t.base as usize), gimli::DebugAddrIndex(idx));
                     if got.is_ok() {
-                        ctx.fail("get_address.out_of_bounds", &format!("index {idx} at base {} of a {}-byte section returned {got:?}", t.base, ad_b.len()), &input);
+                        cfail(ctx, "get_address.out_of_bounds", &format!("index {idx} at base {} of a {}-byte section returned {got:?}", t.base, ad_b.len()), &input);
                     }
                 }
             }
@@ -416,50 +416,50 @@ pub fn tables_stream(ctx: &mut Ctx) {
             let header = match units.next() {
                 Ok(Some(h)) => h,
                 other => {
-                    ctx.fail("attr_string.unit_header", &format!("tiny unit not readable: {:?}", other.map(|_| ())), &input2);
+                    cfail(ctx, "attr_string.unit_header", &format!("tiny unit not readable: {:?}", other.map(|_| ())), &input2);
                     return;
                 }
             };
             let unit = match dwarf.unit(header) {
                 Ok(u) => u,
                 Err(e) => {
-                    ctx.fail("attr_string.unit", &format!("tiny unit not readable: {e:?}"), &input2);
+                    cfail(ctx, "attr_string.unit", &format!("tiny unit not readable: {e:?}"), &input2);
                     return;
                 }
             };
-            ctx.check_eq("Unit.str_offsets_base", &(my_base as usize), &unit.str_offsets_base.0, &input2);
-            ctx.check_eq("Unit.addr_base", &(ta.base as usize), &unit.addr_base.0, &input2);
+            ceq(ctx, "Unit.str_offsets_base", &(my_base as usize), &unit.str_offsets_base.0, &input2);
+            ceq(ctx, "Unit.addr_base", &(ta.base as usize), &unit.addr_base.0, &input2);
             use gimli::AttributeValue as AV;
             let s = |x: gimli::Result<Rd>| x.ok().map(|s| s.slice().to_vec());
             for (k, (o, name)) in str_v.iter().enumerate() {
                 ctx.obs("attr_string.strx");
-                ctx.check_eq("attr_string.strx", &Some(name.clone()), &s(dwarf.attr_string(&unit, AV::DebugStrOffsetsIndex(gimli::DebugStrOffsetsIndex(k)))), &input2);
+                ceq(ctx, "attr_string.strx", &Some(name.clone()), &s(dwarf.attr_string(&unit, AV::DebugStrOffsetsIndex(gimli::DebugStrOffsetsIndex(k)))), &input2);
                 ctx.obs("attr_string.strp");
-                ctx.check_eq("attr_string.strp", &Some(name.clone()), &s(dwarf.attr_string(&unit, AV::DebugStrRef(gimli::DebugStrOffset(*o as usize)))), &input2);
-                ctx.check_eq("attr_line_string.strp", &Some(name.clone()), &s(dwarf.attr_line_string(AV::DebugStrRef(gimli::DebugStrOffset(*o as usize)))), &input2);
-                ctx.check_eq("string_offset", &Some(*o as usize), &dwarf.string_offset(&unit, gimli::DebugStrOffsetsIndex(k)).ok().map(|x| x.0), &input2);
+                ceq(ctx, "attr_string.strp", &Some(name.clone()), &s(dwarf.attr_string(&unit, AV::DebugStrRef(gimli::DebugStrOffset(*o as usize)))), &input2);
+                ceq(ctx, "attr_line_string.strp", &Some(name.clone()), &s(dwarf.attr_line_string(AV::DebugStrRef(gimli::DebugStrOffset(*o as usize)))), &input2);
+                ceq(ctx, "string_offset", &Some(*o as usize), &dwarf.string_offset(&unit, gimli::DebugStrOffsetsIndex(k)).ok().map(|x| x.0), &input2);
                 let uref = unit.unit_ref(&dwarf);
-                ctx.check_eq("UnitRef.attr_string.strx", &Some(name.clone()), &s(uref.attr_string(AV::DebugStrOffsetsIndex(gimli::DebugStrOffsetsIndex(k)))), &input2);
+                ceq(ctx, "UnitRef.attr_string.strx", &Some(name.clone()), &s(uref.attr_string(AV::DebugStrOffsetsIndex(gimli::DebugStrOffsetsIndex(k)))), &input2);
             }
             for (o, name) in &lstr_v {
                 ctx.obs("attr_string.line_strp");
-                ctx.check_eq("attr_string.line_strp", &Some(name.clone()), &s(dwarf.attr_string(&unit, AV::DebugLineStrRef(gimli::DebugLineStrOffset(*o as usize)))), &input2);
-                ctx.check_eq("attr_line_string.line_strp", &Some(name.clone()), &s(dwarf.attr_line_string(AV::DebugLineStrRef(gimli::DebugLineStrOffset(*o as usize)))), &input2);
+                ceq(ctx, "attr_string.line_strp", &Some(name.clone()), &s(dwarf.attr_string(&unit, AV::DebugLineStrRef(gimli::DebugLineStrOffset(*o as usize)))), &input2);
+                ceq(ctx, "attr_line_string.line_strp", &Some(name.clone()), &s(dwarf.attr_line_string(AV::DebugLineStrRef(gimli::DebugLineStrOffset(*o as usize)))), &input2);
             }
             for (o, name) in &sup_v {
                 ctx.obs("attr_string.strp_sup");
-                ctx.check_eq("attr_string.strp_sup", &Some(name.clone()), &s(dwarf.attr_string(&unit, AV::DebugStrRefSup(gimli::DebugStrOffset(*o as usize)))), &input2);
+                ceq(ctx, "attr_string.strp_sup", &Some(name.clone()), &s(dwarf.attr_string(&unit, AV::DebugStrRefSup(gimli::DebugStrOffset(*o as usize)))), &input2);
             }
             let inline: &[u8] = b"inline";
-            ctx.check_eq("attr_string.string", &Some(inline.to_vec()), &s(dwarf.attr_string(&unit, AV::String(EndianSlice::new(inline, e)))), &input2);
-            ctx.check_eq("attr_string.not_a_string", &true, &dwarf.attr_string(&unit, AV::Udata(1)).is_err(), &input2);
+            ceq(ctx, "attr_string.string", &Some(inline.to_vec()), &s(dwarf.attr_string(&unit, AV::String(EndianSlice::new(inline, e)))), &input2);
+            ceq(ctx, "attr_string.not_a_string", &true, &dwarf.attr_string(&unit, AV::Udata(1)).is_err(), &input2);
             for (k, a) in ta.entries.iter().enumerate() {
                 ctx.obs("attr_address.addrx");
-                ctx.check_eq("attr_address.addrx", &Some(Some(*a)), &dwarf.attr_address(&unit, AV::DebugAddrIndex(gimli::DebugAddrIndex(k))).ok(), &input2);
-                ctx.check_eq("address", &Some(*a), &dwarf.address(&unit, gimli::DebugAddrIndex(k)).ok(), &input2);
+                ceq(ctx, "attr_address.addrx", &Some(Some(*a)), &dwarf.attr_address(&unit, AV::DebugAddrIndex(gimli::DebugAddrIndex(k))).ok(), &input2);
+                ceq(ctx, "address", &Some(*a), &dwarf.address(&unit, gimli::DebugAddrIndex(k)).ok(), &input2);
             }
-            ctx.check_eq("attr_address.addr", &Some(Some(0x1234)), &dwarf.attr_address(&unit, AV::Addr(0x1234)).ok(), &input2);
-            ctx.check_eq("attr_address.other", &Some(None), &dwarf.attr_address(&unit, AV::Udata(7)).ok(), &input2);
+            ceq(ctx, "attr_address.addr", &Some(Some(0x1234)), &dwarf.attr_address(&unit, AV::Addr(0x1234)).ok(), &input2);
+            ceq(ctx, "attr_address.other", &Some(None), &dwarf.attr_address(&unit, AV::Udata(7)).ok(), &input2);
         });
         if so_tables.iter().any(|t| !t.entries.is_empty()) || ad_tables.iter().any(|t| !t.entries.is_empty()) {
             let mut both = so_b.clone();
